@@ -73,6 +73,7 @@ type Oracle struct {
 	terms        map[uint64]bool
 	msgType      map[int]int
 	pending      map[uint64]*ReadyProj // Ready returned by StepNode, not yet published to the application
+	snapPend     map[uint64]*SnapProj  // snapshot of a Ready returned by StepNode, not yet persisted
 	granted      map[[2]uint64]uint64  // (node, term) -> candidate it sent a granting MsgVoteResp to
 	bootMember   map[uint64]bool       // alive in record 0: bootstrapped with the full peer list
 	emptyRestart map[uint64]bool       // such a node restarted from a completely empty storage
@@ -258,6 +259,12 @@ func (o *Oracle) Feed(rec *Record) {
 		o.S.Readys++
 		rd := rec.Rd
 		o.pending[ev.N] = rd
+		if rd.Snap != nil {
+			if o.snapPend == nil {
+				o.snapPend = map[uint64]*SnapProj{}
+			}
+			o.snapPend[ev.N] = rd.Snap
+		}
 		for _, mb := range rd.MsgBodies {
 			o.msgType[mb.ID] = mb.Msg.Type
 		}
@@ -336,6 +343,20 @@ func (o *Oracle) Feed(rec *Record) {
 	}
 	if ev.K == "crash" || ev.K == "restart" {
 		delete(o.pending, ev.N)
+		delete(o.snapPend, ev.N)
+	}
+	// ---- a persisted snapshot carries its membership: what the storage holds after the Ready's snapshot was saved is
+	//      what a restart (InitialState) starts from ----
+	if sn := o.snapPend[ev.N]; ev.K == "ready" && sn != nil && hasStage(rec.Sub, "phs") {
+		delete(o.snapPend, ev.N)
+		for i := range rec.Nodes {
+			if d := rec.Nodes[i].Disk; rec.Nodes[i].ID == ev.N && d != nil && d.SI == sn.I {
+				if fmt.Sprint(d.SVoters) != fmt.Sprint(sn.Voters) || fmt.Sprint(d.SLearners) != fmt.Sprint(sn.Learners) {
+					o.viol("C01", "snapshot-membership-not-persisted", seq, "node %d persisted the snapshot at %d of its Ready but the storage's snapshot holds voters %v learners %v instead of %v / %v (a restart starts from that membership)",
+						ev.N, sn.I, d.SVoters, d.SLearners, sn.Voters, sn.Learners)
+				}
+			}
+		}
 	}
 	// ---- hand-out: the Ready's committed entries / snapshot reach the application ("publish") ----
 	if ev.K == "ready" && hasStage(rec.Sub, "publish") && o.pending[ev.N] != nil {
